@@ -56,7 +56,7 @@ fn month_end_dates(y0: i64, y1: i64) -> Dates {
     Dates { list: v }
 }
 
-fn run_on<C: DateRoll>(ctx: &mut Ctx, cal: &C, spec: &CalSpec, dates: &[i64], rng: &mut Rng) {
+fn run_on<C: DateRoll + PyCalLayer>(ctx: &mut Ctx, cal: &C, spec: &CalSpec, dates: &[i64], rng: &mut Rng) {
     if dates.is_empty() {
         return;
     }
@@ -121,6 +121,15 @@ fn run_on<C: DateRoll>(ctx: &mut Ctx, cal: &C, spec: &CalSpec, dates: &[i64], rn
                         return;
                     }
                 };
+                // what Python calls (roll_py of the calendar's own class) gives the same date
+                if let Some(py) = cal.py_roll(dt, m, settlement) {
+                    ctx.asserted(1);
+                    ctx.class("python-layer:roll");
+                    if py != Ok(got) {
+                        ctx.violation(&format!("C04|python-layer|roll|{}", mod_name(&m)), json!({"calendar": spec.describe(), "date": fmt_z(z), "modifier": mod_name(&m), "settlement": settlement, "core": got.to_string(), "python_layer": py.map(|d| d.to_string())}));
+                        return;
+                    }
+                }
                 let gz = from_ndt(&got);
                 // classes actually observed
                 let moved = if want == z {
@@ -226,6 +235,7 @@ impl Prop for C04 {
         v.push("calendar:inside-CalType-container".to_string());
         v.push("holiday-list:not-chronological".to_string());
         v.push("calendar:named-with-settlement-inside-CalType-container".to_string());
+        v.push("python-layer:roll".to_string());
         v
     }
     fn min_evaluations(&self, tier: Tier) -> u64 {
